@@ -161,6 +161,86 @@ func comparePar(x parseExport, a parseAnswer) string {
 	return ""
 }
 
+// longParseInputs: well-formed objects and listing lines with one very long component; what the parser must
+// answer is what they were built from (Parsers!RoundTrip at sizes TLC does not enumerate).
+func longParseInputs(fam string, quickTier bool) []parseExport {
+	sizes := []int{4096, 65536, 70000}
+	if !quickTier {
+		sizes = []int{4095, 4096, 4097, 65535, 65536, 65537, 100000, 1000000}
+	}
+	hexTok := func(seed byte) []string { // 40 hex digits
+		return []string{strings.Repeat(fmt.Sprintf("%02x", seed), 20)}
+	}
+	rawOid := func(seed byte) []string { return []string{strings.Repeat(string([]byte{seed}), 20)} }
+	yes := true
+	var out []parseExport
+	for _, n := range sizes {
+		long := strings.Repeat("n", n)
+		switch fam {
+		case "tree":
+			x := parseExport{Kind: "tree"}
+			x.Bytes = append(append([]string{"100644", "SP", "first", "NUL"}, rawOid(0x11)...), append(append([]string{"40000", "SP", long, "NUL"}, rawOid(0x22)...),
+				append([]string{"120000", "SP", "last", "NUL"}, rawOid(0x33)...)...)...)
+			no := false
+			x.Expect.Err = &no
+			add := func(mode uint, name string, seed byte) {
+				x.Expect.Entries = append(x.Expect.Entries, struct {
+					Mode uint     `json:"mode"`
+					Name []string `json:"name"`
+					OID  []string `json:"oid"`
+				}{mode, []string{name}, rawOid(seed)})
+			}
+			add(0o100644, "first", 0x11)
+			add(0o40000, long, 0x22)
+			add(0o120000, "last", 0x33)
+			out = append(out, x)
+		case "commit":
+			for _, where := range []string{"header", "continuation", "message"} {
+				x := parseExport{Kind: "commit"}
+				b := []string{"tree", "SP", hexTok(0xaa)[0], "LF", "parent", "SP", hexTok(0xbb)[0], "LF"}
+				switch where {
+				case "header":
+					b = append(b, "author", "SP", long, "LF", "parent", "SP", hexTok(0xcc)[0], "LF")
+					x.Expect.Parents = [][]string{hexTok(0xbb), hexTok(0xcc)}
+				case "continuation":
+					b = append(b, "gpgsig", "SP", "begin", "LF", "SP", "parent", "SP", hexTok(0xdd)[0], long, "LF", "SP", "end", "LF")
+					x.Expect.Parents = [][]string{hexTok(0xbb)}
+				default:
+					x.Expect.Parents = [][]string{hexTok(0xbb)}
+				}
+				b = append(b, "LF")
+				if where == "message" {
+					b = append(b, long, "LF", "parent", "SP", hexTok(0xee)[0], "LF")
+				} else {
+					b = append(b, "msg", "LF")
+				}
+				x.Bytes = b
+				x.Expect.OK = &yes
+				x.Expect.Tree = hexTok(0xaa)
+				out = append(out, x)
+			}
+		case "tag":
+			x := parseExport{Kind: "tag"}
+			x.Bytes = []string{"object", "SP", hexTok(0xaa)[0], "LF", "type", "SP", "commit", "LF", "tag", "SP", long, "LF", "tagger", "SP", "T", "LF", "LF", long, "LF", "type", "SP", "tree", "LF"}
+			x.Expect.OK = &yes
+			x.Expect.Object = hexTok(0xaa)
+			x.Expect.Type = []string{"commit"}
+			out = append(out, x)
+		case "ref":
+			x := parseExport{Kind: "ref"}
+			name := "refs/heads/" + long
+			x.Bytes = []string{hexTok(0xaa)[0], "SP", "commit", "SP", "123", "SP", name}
+			x.Expect.OK = &yes
+			x.Expect.OID = hexTok(0xaa)
+			x.Expect.Type = []string{"commit"}
+			x.Expect.Size = []string{"123"}
+			x.Expect.Name = []string{name}
+			out = append(out, x)
+		}
+	}
+	return out
+}
+
 func askParse(driver string, xs []parseExport) []parseAnswer {
 	type in struct {
 		Kind  string `json:"kind"`
@@ -214,6 +294,9 @@ func checkC16(c *Ctx) {
 			Infra("ParsersMC %s: %v\n%s\n%s", fam, err, res.ErrorText, res.Tail)
 		}
 		c.AddTLC("ParsersMC "+fam, res.Generated, res.Distinct, res.Wall, fmt.Sprintf("%d inputs exported", len(xs)))
+		// instances of the round-trip law that are as long as a buffer or longer (4 KiB, 64 KiB): one entry name,
+		// one header line, one message, one reference name of that size
+		xs = append(xs, longParseInputs(fam, quick(c))...)
 		ans := askParse(env.api, xs)
 		nbad := 0
 		for i, x := range xs {
